@@ -17,9 +17,16 @@
 (* emitted as one case: the schema, and the verdict JsonSchema!Valid        *)
 (* predicts for every instance of the fixed base universe (BaseSeq) and for *)
 (* the instances steered from the constants of the schema itself (Steer:    *)
-(* c-1, c, c+1 for every numeric / size bound c, the enum / const values,   *)
-(* objects with and without each required member, and the same one level    *)
-(* down through every applicator).                                          *)
+(* c-1, c, c+1 for every size bound c; for every numeric bound c - integer  *)
+(* or decimal - floor(c), ceil(c) and their neighbours, floor / ceil as     *)
+(* integer-valued decimals, c, c -+ 0.5 (NumAround); multiples and          *)
+(* non-multiples of every divisor (MultAround); the enum / const values in  *)
+(* both spellings of their numbers (1 / 1.0, Respell); arrays that mix the  *)
+(* spellings for uniqueItems; objects with and without each required        *)
+(* member; and the same one level down through every applicator).           *)
+(* Verdict codes: 1 valid, 0 invalid, 2 not run (reference loop), 3 run but  *)
+(* not compared (multipleOf on numbers binary floating point cannot          *)
+(* represent exactly, FpDontCare).                                           *)
 (*                                                                          *)
 (* Mode "base" emits the base instance table only.                          *)
 (*                                                                          *)
@@ -42,6 +49,8 @@ VARIABLES d, s, pc, sh
 A == <<97>>  B == <<98>>  C == <<99>>  D == <<100>>  X == <<120>>
 I(n) == JInt(n)
 Neg(n) == 0 - n
+Tn(m) == JDec(m, 0 - 1)         \* m tenths:     Tn(25) is 2.5, Tn(10) is 1.0 (the number 1 written with a fraction part)
+Hd(m) == JDec(m, 0 - 2)         \* m hundredths: Hd(125) is 1.25, Hd(150) is 1.50
 Str(name) == JStr(S(name))
 Ar(q) == JArr(q)
 O1(k, v) == JObj(k :> v)
@@ -59,7 +68,9 @@ EAcute == <<233>>
 (* Base instance universe (every JSON type; numbers -1..3; strings of 0..3  *)
 (* characters incl. non-ASCII and astral ones; arrays of 0..3 elements with *)
 (* and without duplicates; objects over the member names a, b, c with 0..3  *)
-(* members; one level of nesting).                                          *)
+(* members; one level of nesting; at the end the decimals 1.0 and 1.5, the  *)
+(* array [1, 1.0] and the object {"a": 1.0}: every schema meets an          *)
+(* integer-valued decimal beside the integer of the same value).            *)
 BaseSeq == <<
   JNull, T, F, I(Neg(1)), I(0), I(1), I(2), I(3), I(4),
   JStr(<<>>), JStr(A), JStr(B), JStr(<<97, 98>>), JStr(<<97, 98, 99>>), JStr(Astral), JStr(<<233, 65536>>),
@@ -71,7 +82,8 @@ BaseSeq == <<
   EmptyObj, O1(A, I(0)), O1(A, I(1)), O1(A, I(2)), O1(A, JStr(A)), O1(A, JNull), O1(B, I(1)), O1(B, JStr(A)), O1(C, I(1)),
   O2(A, I(1), B, I(1)), O2(A, I(1), B, JStr(A)), O2(A, JStr(A), B, I(1)), O2(A, I(1), C, I(1)), O2(B, I(1), C, I(1)), O2(A, I(0), B, I(2)),
   O3(A, I(1), B, I(1), C, I(1)), O3(A, I(1), B, I(1), C, JStr(A)),
-  O1(A, EmptyObj), O1(A, O1(A, I(1))), O1(A, EmptyArr), O1(A, Ar(<<I(1)>>)), O1(A, Ar(<<I(0), I(0)>>)), O1(A, O1(B, I(1)))
+  O1(A, EmptyObj), O1(A, O1(A, I(1))), O1(A, EmptyArr), O1(A, Ar(<<I(1)>>)), O1(A, Ar(<<I(0), I(0)>>)), O1(A, O1(B, I(1))),
+  Tn(10), Tn(15), Ar(<<I(1), Tn(10)>>), O1(A, Tn(10))
 >>
 BaseSet == { BaseSeq[j] : j \in 1..Len(BaseSeq) }
 
@@ -143,6 +155,38 @@ Asrt(dd, lvl) ==
                                   <<"dependencies", O3(A, Ar(<<JStr(B)>>), B, K1("required", Ar(<<JStr(C)>>)), C, K1("required", Ar(<<JStr(D)>>)))>> } ELSE {})
              \cup (IF full THEN { <<"dependencies", O2(A, Ar(<<JStr(B), JStr(C)>>), B, Ar(<<JStr(A)>>))>> }
                                 \cup (IF r >= 6 THEN { <<"dependencies", O1(A, EmptyArr)>> } ELSE {}) ELSE {}))
+
+(* Numeric keywords with non-integral constants (x.5, x.25, x.75: exactly     *)
+(* representable in binary floating point; 1.1, 0.33, 0.1, 0.01: not), the    *)
+(* integer-valued decimals 1.0 / 2.0 as constants, and enum / const values     *)
+(* that mix the integer and the decimal spelling of a number.                  *)
+FracA(dd, lvl) ==
+  LET r == Rank(dd)
+      full == lvl = "full"
+      mid == lvl \in {"full", "mid"}
+  IN
+  { <<"minimum", Tn(25)>>, <<"maximum", Tn(25)>>, <<"multipleOf", Tn(5)>>, <<"enum", Ar(<<Tn(10), JStr(A)>>)>> }
+  \cup (IF r >= 6 THEN { <<"exclusiveMinimum", Tn(15)>>, <<"exclusiveMaximum", Tn(15)>>, <<"const", Tn(10)>> } ELSE {})
+  \cup (IF mid THEN { <<"minimum", Tn(5)>>, <<"maximum", Hd(175)>>, <<"multipleOf", Hd(25)>>, <<"multipleOf", Tn(15)>>, <<"enum", Ar(<<I(1), Tn(25)>>)>>,
+                      <<"minimum", Tn(20)>>, <<"maximum", Tn(10)>> }
+                    \cup (IF r >= 6 THEN { <<"const", Tn(25)>>, <<"exclusiveMinimum", Hd(25)>>, <<"exclusiveMaximum", Tn(20)>> } ELSE {})
+        ELSE {})
+  \cup (IF full THEN { <<"minimum", Hd(125)>>, <<"minimum", Tn(Neg(5))>>, <<"minimum", Tn(11)>>,
+                       <<"maximum", Tn(5)>>, <<"maximum", Tn(Neg(15))>>, <<"maximum", Hd(33)>>,
+                       <<"multipleOf", Tn(25)>>, <<"multipleOf", Tn(20)>>, <<"multipleOf", Hd(75)>>, <<"multipleOf", Tn(1)>>, <<"multipleOf", Hd(1)>>,
+                       <<"enum", Ar(<<Tn(5)>>)>>, <<"enum", Ar(<<Ar(<<Tn(10)>>), O1(A, Tn(10))>>)>>, <<"enum", Ar(<<Hd(150), Tn(0)>>)>> }
+                     \cup (IF r >= 6 THEN { <<"exclusiveMinimum", Tn(10)>>, <<"exclusiveMinimum", Tn(Neg(5))>>, <<"exclusiveMaximum", Hd(275)>>, <<"exclusiveMaximum", Tn(5)>>,
+                                            <<"const", Tn(0)>>, <<"const", Hd(250)>>, <<"const", Ar(<<I(1), Tn(10)>>)>>, <<"const", O1(A, Tn(10))>>, <<"const", I(2)>> } ELSE {})
+        ELSE {})
+(* Siblings of a fractional numeric keyword: the type keywords that tell 1   *)
+(* from 1.0, the Draft 4 boolean modifiers, a second bound (integer and      *)
+(* fractional), a second divisor.                                            *)
+FracSib(dd) ==
+  { <<"type", Str("integer")>>, <<"type", Str("number")>>, <<"type", Ar(<<Str("integer"), Str("string")>>)>>,
+    <<"minimum", I(1)>>, <<"maximum", I(2)>>, <<"minimum", Tn(15)>>, <<"maximum", Tn(35)>>, <<"multipleOf", I(1)>>, <<"multipleOf", Tn(5)>>,
+    <<"enum", Ar(<<I(1), I(2), Tn(25), Tn(30)>>)>>, <<"not", K1("type", Str("integer"))>> }
+  \cup (IF Rank(dd) >= 6 THEN { <<"exclusiveMinimum", I(1)>>, <<"exclusiveMaximum", I(3)>>, <<"exclusiveMinimum", Tn(5)>>, <<"exclusiveMaximum", Tn(25)>>, <<"const", I(2)>> }
+        ELSE { <<"exclusiveMinimum", T>>, <<"exclusiveMaximum", T>>, <<"exclusiveMinimum", F>>, <<"exclusiveMaximum", F>> })
 
 (* Applicator keywords with filler subschemas.                              *)
 Appl(dd, lvl) ==
@@ -241,6 +285,10 @@ Alpha(dd, name) ==
     [] name = "sibs" -> Sibs(dd)
     [] name = "refs" -> Refs(dd)
     [] name = "refsmid" -> Refs(dd) \cup Asrt(dd, "core") \cup Appl(dd, "core")
+    [] name = "frac" -> FracA(dd, "full")
+    [] name = "fracmid" -> FracA(dd, "mid")
+    [] name = "fraccore" -> FracA(dd, "core")
+    [] name = "fracsib" -> FracSib(dd)
 
 -----------------------------------------------------------------------------
 (* Meta-schema side conditions between sibling keywords (d4: "dependencies" *)
@@ -333,6 +381,11 @@ Plan ==
     [] PlanName = "uneval3" -> <<Ad("annot"), Ne("inplace"), Ne("inplace"), Ad("uneval")>>
     [] PlanName = "refs" -> <<Ad("refsmid"), Ad("refs"), Ad("refs")>>
     [] PlanName = "refs2" -> <<Ad("core"), Ne("ref"), Ne("struct")>>
+    [] PlanName = "frac" -> <<Ad("frac"), Ad("fracsib")>>
+    [] PlanName = "fracnest" -> <<Ad("frac"), Ne("all")>>
+    [] PlanName = "fracsib3" -> <<Ad("fracmid"), Ad("fracsib"), Ad("fracsib")>>
+    [] PlanName = "fracfull" -> <<Ad("frac"), Ad("full")>>
+    [] PlanName = "fracnest2" -> <<Ad("fraccore"), Ne("struct"), Ne("struct")>>
 
 (* sh spreads the first step over NSpread seeds per dialect so that all TLC  *)
 (* workers are busy from the start (cases are evaluated by the worker that   *)
@@ -364,6 +417,42 @@ Iota(n) == IF n <= 0 THEN <<>> ELSE Append(Iota(n - 1), I(n - 1))
 KeySeq == <<A, B, C, D>>
 ObjOfSize(n) == IF n < 0 \/ n > 4 THEN {} ELSE { JObj([k \in { KeySeq[j] : j \in 1..n } |-> I(1)]) }
 Around(n) == { n - 1, n, n + 1 }
+(* Numbers around a numeric bound c (integer or decimal): floor(c), ceil(c)   *)
+(* and their neighbours as integers, floor(c) and ceil(c) as integer-valued   *)
+(* decimals (2.0 beside 2), c itself (for a decimal also in its other         *)
+(* spelling, 2.5 / 2.50), c - 0.5, c + 0.5, and c -+ 0.25 for a decimal c.    *)
+NumAround(c) ==
+  LET h == Hun(c)
+      fl == h \div 100
+      ce == 0 - ((0 - h) \div 100)
+  IN { I(fl - 1), I(fl), I(ce), I(ce + 1), Tn(10 * fl), Tn(10 * ce), c, FromHun(h - 50), FromHun(h + 50) }
+     \cup (IF c[1] = "dec" THEN { FromHun(h - 25), FromHun(h + 25), FromHun(h), (IF c[3] = 0 - 1 THEN Hd(10 * c[2]) ELSE c) } ELSE {})
+(* Numbers around a divisor b: b, 2b, 3b, -b, b/2 and 3b/2 (when they have    *)
+(* two fraction digits), b + 0.5, b + 1, 0 and 0.0, the integers next to b,   *)
+(* and for an integral b the decimal spellings b.0, 2b.0.                     *)
+MultAround(b) ==
+  LET h == Hun(b)
+      fl == h \div 100
+  IN { FromHun(h), FromHun(2 * h), FromHun(3 * h), FromHun(0 - h), FromHun(h + 50), FromHun(h + 100), I(0), Tn(0), I(fl), I(fl + 1) }
+     \cup (IF (h % 2) = 0 THEN { FromHun(h \div 2), FromHun(3 * (h \div 2)) } ELSE {})
+     \cup (IF (h % 100) = 0 THEN { Tn(h \div 10), Tn(2 * (h \div 10)) } ELSE {})
+(* The same value with every number in its other spelling (1 <-> 1.0,         *)
+(* 2.5 <-> 2.50): equal to the original by JSON value equality.               *)
+RECURSIVE Respell(_)
+RECURSIVE RespellSeq(_)
+RespellSeq(q) == IF q = <<>> THEN <<>> ELSE <<Respell(Head(q))>> \o RespellSeq(Tail(q))
+Respell(v) ==
+  CASE v[1] = "int" -> Tn(10 * v[2])
+    [] v[1] = "dec" -> IF v[3] = 0 - 1 THEN (IF (v[2] % 10) = 0 THEN I(v[2] \div 10) ELSE Hd(10 * v[2])) ELSE FromHun(v[2])
+    [] v[1] = "arr" -> Ar(RespellSeq(v[2]))
+    [] v[1] = "obj" -> JObj([k \in DOMAIN v[2] |-> Respell(v[2][k])])
+    [] OTHER -> v
+(* Arrays for uniqueItems whose elements differ in spelling only (not unique) *)
+(* or in value (unique).                                                       *)
+UniqInst == { Ar(<<Tn(10), I(1)>>), Ar(<<Tn(15), Hd(150)>>), Ar(<<I(1), Tn(15)>>), Ar(<<Ar(<<I(1)>>), Ar(<<Tn(10)>>)>>),
+              Ar(<<O1(A, I(1)), O1(A, Tn(10))>>), Ar(<<I(0), F, Tn(0)>>) }
+MentionsNumeric(t) == IF t[1] = "str" THEN t[2] \in {S("integer"), S("number")}
+                      ELSE \E j \in 1..Len(t[2]) : t[2][j][2] \in {S("integer"), S("number")}
 
 RECURSIVE Steer(_, _, _, _)
 Steer(dd, root, x, fuel) ==
@@ -375,14 +464,17 @@ Steer(dd, root, x, fuel) ==
       sub(y) == Steer(dd, root, y, fuel - 1)
       subs(q) == UNION { sub(q[j]) : j \in 1..Len(q) }
       submap(o) == UNION { IF IsSchemaVal(dd, o[2][k]) THEN sub(o[2][k]) ELSE {} : k \in DOMAIN o[2] }
-      nums == UNION { IF has(k) /\ at(k)[1] = "int" THEN { I(n) : n \in Around(at(k)[2]) } ELSE {}
+      nums == UNION { IF has(k) /\ IsNum(at(k)) THEN NumAround(at(k)) ELSE {}
                       : k \in {"maximum", "minimum", "exclusiveMaximum", "exclusiveMinimum"} }
-              \cup (IF has("multipleOf") THEN { I(at("multipleOf")[2]), I(at("multipleOf")[2] + 1), I(2 * at("multipleOf")[2]), I(Neg(at("multipleOf")[2])) } ELSE {})
+              \cup (IF has("multipleOf") THEN MultAround(at("multipleOf")) ELSE {})
+              \cup (IF has("type") /\ MentionsNumeric(at("type")) THEN { Tn(0), Tn(Neg(10)), Tn(20) } ELSE {})
+              \cup (IF has("uniqueItems") /\ at("uniqueItems") = T THEN UniqInst ELSE {})
       strs == UNION { IF has(k) THEN { JStr(Rep(97, n)) : n \in { m \in Around(at(k)[2]) : m >= 0 } } \cup { JStr(Rep(65536, n)) : n \in { m \in Around(at(k)[2]) : m >= 1 } } ELSE {}
                       : k \in {"maxLength", "minLength"} }
       arrs == UNION { IF has(k) THEN { Ar(Iota(n)) : n \in { m \in Around(at(k)[2]) : m >= 0 } } ELSE {} : k \in {"maxItems", "minItems"} }
       objs == UNION { IF has(k) THEN UNION { ObjOfSize(n) : n \in Around(at(k)[2]) } ELSE {} : k \in {"maxProperties", "minProperties"} }
-      vals == (IF has("enum") THEN SeqElems(at("enum")[2]) ELSE {}) \cup (IF has("const") THEN {at("const")} ELSE {})
+      vals0 == (IF has("enum") THEN SeqElems(at("enum")[2]) ELSE {}) \cup (IF has("const") THEN {at("const")} ELSE {})
+      vals == vals0 \cup { Respell(y) : y \in vals0 }
       reqn == IF has("required") THEN { y[2] : y \in SeqElems(at("required")[2]) } ELSE {}
       reqs == IF has("required") THEN { JObj([k \in reqn |-> I(1)]) } \cup { JObj([k \in reqn \ {z} |-> I(1)]) : z \in reqn } ELSE {}
       \* dependency maps: each trigger with its required members; every pair of triggers with the first satisfied and the second
@@ -458,6 +550,31 @@ DontCare(dd, root) ==
 (*     itself when that element fails the subschema (C 2020-12 10.3.1.3: the  *)
 (*     annotation of "contains" is the positions of the MATCHING elements;    *)
 (*     7.7.1: annotations are attached to the location they were produced at) *)
+(* Per-instance don't-care (verdict code 3: the instance is run, its verdict  *)
+(* is not compared): the schema contains a "multipleOf" whose result for a     *)
+(* number occurring in the instance depends on binary floating-point rounding  *)
+(* (JsonSchema!MultipleOfExact).  Over-approximated on purpose: any divisor    *)
+(* anywhere in the schema document against any number anywhere in the          *)
+(* instance.                                                                   *)
+MultConsts(dd, root) == { y[2][S("multipleOf")] : y \in { z \in Subs(dd, root) : z[1] = "obj" /\ S("multipleOf") \in DOMAIN z[2] } }
+RECURSIVE NumsIn(_)
+NumsIn(v) == CASE IsNum(v) -> {v}
+               [] v[1] = "arr" -> UNION { NumsIn(v[2][j]) : j \in 1..Len(v[2]) }
+               [] v[1] = "obj" -> UNION { NumsIn(v[2][k]) : k \in DOMAIN v[2] }
+               [] OTHER -> {}
+FpDontCare(mc, v) == mc # {} /\ \E a \in NumsIn(v) : \E b \in mc : ~MultipleOfExact(a, b)
+
+(*  d4-integer-zero-fraction  (Draft 4) "type": "integer" accepts a number     *)
+(*     with a zero fractional part that is stored as a double (C d4 3.5:       *)
+(*     "integer: JSON number without a fraction or exponent part"); tagged     *)
+(*     exactly, from the emitted instances (ZeroFracManifest below)            *)
+(*  unevaluatedProperties-leaks-child-properties  (2019-09, 2020-12) while a   *)
+(*     member VALUE is validated against the subschema of                      *)
+(*     "unevaluatedProperties", the member names that subschema evaluates      *)
+(*     inside the value (a child location) are added to the evaluated names    *)
+(*     of the PARENT object, so a later member of the parent with the same     *)
+(*     name is not checked at all (C 2019-09 / 2020-12 7.7.1: annotations are  *)
+(*     attached to the instance location they were produced at).               *)
 RECURSIVE HasWideObj(_)
 HasWideObj(v) == CASE v[1] = "obj" -> Cardinality(DOMAIN v[2]) >= 2 \/ \E k \in DOMAIN v[2] : HasWideObj(v[2][k])
                    [] v[1] = "arr" -> \E j \in 1..Len(v[2]) : HasWideObj(v[2][j])
@@ -480,16 +597,32 @@ Trigger(name, dd, root) ==
          /\ \E y \in Subs(dd, root) : y[1] = "obj" /\ S("contains") \in DOMAIN y[2] /\
                \E z \in Subs(dd, y[2][S("contains")]) : z[1] = "obj" /\
                   \E k \in {"items", "prefixItems", "contains", "unevaluatedItems", "$ref"} : S(k) \in DOMAIN z[2]
+    [] name = "unevaluatedProperties-leaks-child-properties" ->
+         /\ Rank(dd) >= 8
+         /\ \E y \in Subs(dd, root) : y[1] = "obj" /\ S("unevaluatedProperties") \in DOMAIN y[2] /\
+               \E z \in Subs(dd, y[2][S("unevaluatedProperties")]) : z[1] = "obj" /\
+                  \E k \in {"properties", "additionalProperties", "unevaluatedProperties", "$ref"} : S(k) \in DOMAIN z[2]
     [] OTHER -> FALSE
 DevOf(dd, root) == { name \in KnownDeviations : Trigger(name, dd, root) }
 
 -----------------------------------------------------------------------------
 Code(st) == CASE st = "ok" -> 1 [] st = "bad" -> 0 [] st = "loop" -> 2
 BaseCase == [k |-> "base", v |-> [j \in 1..Len(BaseSeq) |-> Wire(BaseSeq[j])]]
-Case == LET xs == Steered IN
-  [k |-> "c", d |-> d, s |-> Wire(s), dev |-> SetToSeq(DevOf(d, s)), dc |-> SetToSeq(DontCare(d, s)),
-   r |-> [j \in 1..Len(BaseSeq) |-> Code(Valid(d, s, BaseSeq[j]))],
-   x |-> [j \in 1..Len(xs) |-> <<Wire(xs[j]), Code(Valid(d, s, xs[j]))>>]]
+\* verdict codes: 1 valid, 0 invalid, 2 never run (reference loop), 3 run but not compared (FpDontCare)
+VCode(mc, v) == LET c == Code(Valid(d, s, v)) IN IF c # 2 /\ FpDontCare(mc, v) THEN 3 ELSE c
+(* Known deviation d4-integer-zero-fraction, tagged exactly: a Draft 4 case    *)
+(* in which the verdict of some emitted instance changes when its              *)
+(* integer-valued decimals are respelled as integers (Canon), i.e. the verdict *)
+(* hinges on C d4 3.5 "integer: JSON number without a fraction or exponent     *)
+(* part".                                                                      *)
+ZeroFracManifest(vs) == d = "d4" /\ \E j \in 1..Len(vs) : LET c == Canon(vs[j]) IN c # vs[j] /\ Valid(d, s, vs[j]) # Valid(d, s, c)
+Case == LET xs == Steered
+            mc == MultConsts(d, s)
+            zf == IF "d4-integer-zero-fraction" \in KnownDeviations /\ ZeroFracManifest(BaseSeq \o xs) THEN {"d4-integer-zero-fraction"} ELSE {}
+        IN
+  [k |-> "c", d |-> d, s |-> Wire(s), dev |-> SetToSeq(DevOf(d, s) \cup zf), dc |-> SetToSeq(DontCare(d, s)),
+   r |-> [j \in 1..Len(BaseSeq) |-> VCode(mc, BaseSeq[j])],
+   x |-> [j \in 1..Len(xs) |-> <<Wire(xs[j]), VCode(mc, xs[j])>>]]
 Emit == IF pc = 0 THEN (PlanName = "base" => PrintT(ToJson(BaseCase)))
         ELSE IF pc = 1 THEN TRUE
         ELSE (WF => PrintT(ToJson(Case)))
@@ -498,7 +631,7 @@ Emit == IF pc = 0 THEN (PlanName = "base" => PrintT(ToJson(BaseCase)))
 Same(x, y) == x = y \/ x = "loop" \/ y = "loop"
 Vd(x, v) == Ev(d, s, x, v, {}).st
 RefFree(x) == \A y \in Subs(d, x) : y[1] = "obj" => S("$ref") \notin DOMAIN y[2]
-IdSample == { j \in 1..Len(BaseSeq) : (j % 3) = 1 } \cup {38, 48, 54}
+IdSample == { j \in 1..Len(BaseSeq) : (j % 3) = 1 } \cup {38, 48, 54, 62, 63, 64, 65}
 Identities ==
   (pc >= 2 /\ WF) =>
     \A j \in IdSample :
